@@ -183,6 +183,8 @@ func c08Directed(kind string) (string, string) {
 			for i := 0; i < 135; i++ {
 				ins = append(ins, "1")
 			}
+			// at the deepest point: input nobody handles, then the way back up
+			ins = append(ins, "zz", "0", "zz")
 			for i := 0; i < 140; i++ {
 				ins = append(ins, "0")
 			}
